@@ -101,7 +101,7 @@ theorem hop_nom {s s' : Sys} (h : SysOK nat blocked SLA SLB SR liteA liteB T0 H 
     · right
       rw [← hst] at f1 f2 f3 f7
       refine ⟨mt.tid, s.unmapped ra, s.mapped la, s'.now, Or.inr ⟨⟨he.net.link hl.mirror,
-        ⟨_, f7, rfl, rfl, rfl, rfl, rfl, ?_⟩, ⟨l', rc, q, f1, f2, f3, fun _ => f4⟩, ?_⟩,
+        ⟨_, f7, rfl, rfl, rfl, rfl, rfl, ?_⟩, ⟨l', rc, q, f1, f2, f3, fun _ => Or.inl f4⟩, ?_⟩,
         _, by rw [hfl]; exact List.mem_append_right _ (mem_dgramsOf_of_dgram f5), rfl, rfl, mt, rfl,
         f6.congr (he.ids (!c)), rfl⟩, fun _ => rfl⟩
       · simp [pendOf, he.now]
